@@ -41,6 +41,9 @@ type Scenario struct {
 
 	Faults       FaultCfg
 	ExtraActions func(w *World) []vrt.Action
+	// PreActions runs at every quiescent state before the actions are
+	// listed (deterministic environment transitions, not choices).
+	PreActions func(w *World)
 
 	Cfg          vrt.Config
 	Goal         func(w *World) bool
@@ -202,6 +205,10 @@ func common(sc *Scenario, p params) {
 	}
 	sc.MaxChunk = p.int("chunk", 0)
 	sc.Cfg.LockPoints = p.has("locks")
+	// Time-bound oracles assume goroutines are not starved: virtual time
+	// only advances when no thread can run, unless the scenario asks for
+	// starvation deviations.
+	sc.Cfg.NoStarve = !p.has("starve")
 	sc.Faults = FaultCfg{Drop: true, Dup: true, AfterHandshake: !p.has("hsfaults")}
 	sc.ServerFirst = p.has("serverfirst")
 }
@@ -235,5 +242,114 @@ func init() {
 			sc.Monitors = append(sc.Monitors, monPrefix)
 			return sc
 		}
+	}
+}
+
+// ---------------------------------------------------------------- C12: Close
+
+// closeActions offers "a goroutine calls Close on side X now" (at most max per
+// side) and, before a constructor has returned, "the constructor's context is
+// cancelled now" as scheduling deviations.
+func closeActions(max int) func(w *World) []vrt.Action {
+	return func(w *World) []vrt.Action {
+		var acts []vrt.Action
+		for _, e := range []*Endpoint{w.C, w.S} {
+			e := e
+			used, _ := w.extra["closers:"+e.Name].(int)
+			if e.Conn != nil && used < max {
+				acts = append(acts, vrt.Action{
+					Label: "closer:" + e.Name, Kind: vrt.KEnvSched,
+					Do: func() {
+						w.extra["closers:"+e.Name] = used + 1
+						w.closersUsed++
+						w.extra["lastCloser"] = w.s.Now()
+						name := fmt.Sprintf("closer%d-%s", used, e.Name)
+						w.s.SpawnNow(name, func() {
+							// Close twice, then probe that later calls fail.
+							e.runScript(name, []Op{
+								{Kind: "close"}, {Kind: "close"},
+								{Kind: "send", Data: []byte("after-close")},
+								{Kind: "recv"},
+							})
+						})
+					},
+				})
+			}
+			if !e.CtorDone && w.extra["cancel:"+e.Name] == nil {
+				acts = append(acts, vrt.Action{
+					Label: "cancel-ctx:" + e.Name, Kind: vrt.KEnvSched,
+					Do: func() {
+						w.extra["cancel:"+e.Name] = true
+						w.closersUsed++
+						w.extra["lastCloser"] = w.s.Now()
+						e.cancel()
+					},
+				})
+			}
+		}
+		return acts
+	}
+}
+
+func init() {
+	// close: light traffic, one receiver blocked for ever on each side,
+	// Close injected at any point.
+	builders["close"] = func(name string, p params) *Scenario {
+		sc := &Scenario{}
+		common(sc, p)
+		k := p.int("k", 2)
+		sc.Faults = FaultCfg{}
+		sc.ClientScripts = [][]Op{sends('c', k, -1), recvs(1)}
+		sc.ServerScripts = [][]Op{recvs(k + 1)}
+		sc.ExtraActions = closeActions(p.int("closers", 1))
+		settle := 8 * time.Second
+		sc.Goal = func(w *World) bool {
+			if w.closersUsed > 0 {
+				last, _ := w.extra["lastCloser"].(time.Duration)
+				return w.s.Now() >= last+settle
+			}
+			// without a closer: the k messages have arrived
+			return len(received(w.S)) >= k
+		}
+		sc.Monitors = append(sc.Monitors, monPrefix)
+		sc.Final = append(sc.Final, finalClose)
+		sc.Owns = map[string]bool{"panic": true, "leak": true}
+		sc.Cfg.Horizon = 60 * time.Second
+		return sc
+	}
+	// closestall: the server->client direction is dead after the
+	// handshake, so the client fills its window, blocks in Send and keeps
+	// resending; Close injected at any point of that.
+	builders["closestall"] = func(name string, p params) *Scenario {
+		sc := &Scenario{}
+		common(sc, p)
+		sc.Faults = FaultCfg{}
+		n := int(sc.N)
+		sc.ClientScripts = [][]Op{sends('c', n+1, -1)}
+		sc.ServerScripts = [][]Op{recvs(n + 2)}
+		sc.ExtraActions = closeActions(p.int("closers", 1))
+		sc.PreActions = func(w *World) {
+			if w.handshakeDone() && !w.s2c.blackhole {
+				// not a choice: the link dies as soon as the
+				// handshake is over
+				w.s2c.mu.Lock()
+				w.s2c.blackhole = true
+				w.s2c.inflight = nil
+				w.s2c.mu.Unlock()
+				w.blackholed = true
+			}
+		}
+		until := p.dur("until", 6*time.Second)
+		sc.Goal = func(w *World) bool {
+			if w.closersUsed > 0 {
+				last, _ := w.extra["lastCloser"].(time.Duration)
+				return w.s.Now() >= last+8*time.Second
+			}
+			return w.s.Now() >= until
+		}
+		sc.Final = append(sc.Final, finalClose)
+		sc.Owns = map[string]bool{"panic": true, "leak": true}
+		sc.Cfg.Horizon = 60 * time.Second
+		return sc
 	}
 }
